@@ -533,13 +533,26 @@ def _disjuncts(e):
     return [e]
 
 
+def _is_const(t):
+    """No column reference (own or outer) and no subquery below t."""
+    if isinstance(t, tuple):
+        if t and t[0] in ("col", "ocol", "exists", "scalar", "insub", "notinsub"):
+            return False
+        return all(_is_const(x) for x in t[1:] if isinstance(x, (tuple, list)))
+    if isinstance(t, list):
+        return all(_is_const(x) for x in t)
+    return True
+
+
 def has_or_absorption(t):
     """True if the term contains `X OR (X AND Y)`-shaped predicates: all OR branches share a conjunct and one
     branch consists only of shared conjuncts. The optimizer's distributive-OR rewrite turns these into
     `X AND Y` (known finding F35, asserted by an existing unit test); such queries are not generated."""
     if isinstance(t, tuple):
         if t and t[0] == "or":
-            branches = [[sexp(c) for c in _conjuncts(b)] for b in _disjuncts(t)]
+            # constant conjuncts are compared after the engine's constant folding (`NOT false` and `true` are the same
+            # conjunct for the rewrite): every column-free conjunct counts as one and the same token
+            branches = [[("<const>" if _is_const(c) else sexp(c)) for c in _conjuncts(b)] for b in _disjuncts(t)]
             common = set(branches[0])
             for b in branches[1:]:
                 common &= set(b)
